@@ -285,6 +285,7 @@ Section Sim.
   (* kwargs names are string keys; filters do not look at the VM state *)
   Hypothesis H_key : forall k, w_as_key wd (VStr k false) = Some (KStr k true).
   Hypothesis H_fscope : forall n v k sc sc', w_filter wd n v k sc = w_filter wd n v k sc'.
+  Hypothesis H_fnscope : forall n k sc sc', w_function wd n k sc = w_function wd n k sc'.
 
   Let B := builtins_of_world wd.
 
@@ -607,6 +608,20 @@ Section Sim.
       intros H. cbn [run]. rewrite H. cbn [pop2 stack mk kwargs_of].
       rewrite (H_fscope n v m _ no_scope).
       destruct (w_filter wd n v m no_scope) as [[[r|e] safe]|]; reflexivity.
+    Qed.
+
+    Lemma run_CallFunction f pc b stk l sv c o m n : nth_error ch pc = Some (CallFunction n) ->
+      str_eqb n s_super = false ->
+      R (S f) pc (mk b (VMap m :: stk) l sv c) o
+      = match w_function wd n m no_scope with
+        | None => RFail ErrPanic
+        | Some (ROk r, safe) => R f (S pc) (mk b ((if safe then mark_safe r else r) :: stk) l sv c) o
+        | Some (RErr _, _) => RFail ErrRender
+        end.
+    Proof.
+      intros H Hs. unfold s_super in Hs. cbn [run]. rewrite H. cbn [pop1 stack mk]. rewrite Hs. cbn [kwargs_of].
+      rewrite (H_fnscope n m _ no_scope).
+      destruct (w_function wd n m no_scope) as [[[r|e] safe]|]; reflexivity.
     Qed.
 
     Lemma run_BuildMap f pc b stk l sv c o n items rest pairs : nth_error ch pc = Some (BuildMap n) ->
@@ -991,7 +1006,29 @@ Section Sim.
         destruct (vm_slice opt v va vb vc) as [r|x] eqn:Er.
         + eapply steps_step; [exact S4|]. intros fu. erewrite run_Slice by exact Hi. rewrite Er. runpos.
         + eapply steps_fail1; [exact S4|]. intros fu. erewrite run_Slice by exact Hi. rewrite Er. reflexivity.
-      - (* ECall: not covered (wf_expr) *) cbn [wf_expr] in Hwf. discriminate.
+      - (* ECall *)
+        cbn [wf_expr compile_expr] in *. apply andb_prop in Hwf as [Hs Hw]. apply negb_true_iff in Hs.
+        apply code_at_app in Hc as [Hc1 Hc2]. apply code_at_cons in Hc2 as [Hi1 Hc2].
+        apply code_at_cons in Hc2 as [Hi2 _].
+        pose proof (kws_ok kw H lex pc b stk l sv c o Hw Hlex Hfr Hpar Hc1) as K. cbn [eval].
+        destruct (eval_kws (fun x => eval B x (absE b l sv)) kw) as [kws|x]; [|exact K].
+        destruct K as [Hlen K].
+        assert (S1 : steps pc (mk b stk l sv c) o (S (pc + length (compile_kws compile_expr pc kw)))
+                           (mk b (VMap (kw_map wd kws) :: stk) l sv c) o).
+        { eapply steps_step; [exact K|]. intros fu.
+          apply run_BuildMap with (n := length kw) (items := flat_kws kws) (rest := stk)
+                                  (pairs := map (fun kv => (KStr (fst kv) true, snd kv)) kws);
+            [exact Hi1| |apply build_map_pairs_kws].
+          cbn [mk stack]. rewrite <- Hlen. apply pop_n_kws. }
+        change (b_function B n kws) with (w_function wd n (kw_map wd kws) no_scope).
+        rewrite app_length. cbn [length].
+        destruct (w_function wd n (kw_map wd kws) no_scope) as [[[r|x] safe]|] eqn:Ef.
+        + eapply steps_step; [exact S1|]. intros fu.
+          erewrite run_CallFunction by first [exact Hi2|exact Hs]. rewrite Ef. runpos.
+        + eapply steps_fail1; [exact S1|]. intros fu.
+          erewrite run_CallFunction by first [exact Hi2|exact Hs]. rewrite Ef. reflexivity.
+        + eapply steps_fail1; [exact S1|]. intros fu.
+          erewrite run_CallFunction by first [exact Hi2|exact Hs]. rewrite Ef. reflexivity.
       - (* EArr: not covered *) cbn [wf_expr] in Hwf. discriminate.
       - (* EMap: not covered *) cbn [wf_expr] in Hwf. discriminate.
     Qed.
@@ -1919,7 +1956,7 @@ Theorem compile_correct_world0 :
 Proof.
   intros lib name t cx glob w Hnd Hwf Hf wd.
   apply (compile_correct str wr_str (@app N) (fun _ _ => eq_refl) (fun w a b => eq_sym (app_assoc w a b))
-           (@app_nil_r N) wd (fun _ => eq_refl) (fun _ _ _ _ _ => eq_refl) lib name t cx glob w);
+           (@app_nil_r N) wd (fun _ => eq_refl) (fun _ _ _ _ _ => eq_refl) (fun _ _ _ _ => eq_refl) lib name t cx glob w);
     [|exact Hwf|exact Hf].
   apply world_has_of_map; [exact Hnd|reflexivity].
 Qed.
